@@ -338,6 +338,30 @@ func sameEdits(a, b []diff.Edit) bool {
 	return true
 }
 
+func clipStr(s string) string {
+	if len(s) > 120 {
+		return s[:60] + "…(" + strconv.Itoa(len(s)) + " bytes)…" + s[len(s)-40:]
+	}
+	return s
+}
+
+// allOver returns every string of <= n symbols over the alphabet, shortest first.
+func allOver(alpha []string, n int) []string {
+	out := []string{""}
+	prev := []string{""}
+	for l := 1; l <= n; l++ {
+		var cur []string
+		for _, p := range prev {
+			for _, a := range alpha {
+				cur = append(cur, p+a)
+			}
+		}
+		out = append(out, cur...)
+		prev = cur
+	}
+	return out
+}
+
 func editsString(es []diff.Edit) string {
 	s := make([]string, len(es))
 	for i, e := range es {
@@ -380,16 +404,14 @@ func main() {
 	r.Bound("pairs", n*n)
 	col := &collector{by: map[string]witness{}, out: map[string]struct{}{}}
 
-	mc.ParallelFor(n, func(i int) {
+	row := func(i int, before string, afters []string) {
 		if r.Expired() {
 			r.Cap("deadline")
 			return
 		}
-		before := strs[i]
 		local := map[string]struct{}{}
 		var evals int64
-		for j := 0; j < n; j++ {
-			after := strs[j]
+		for j, after := range afters {
 			class := ""
 			var prevEdits []diff.Edit // diff.Strings' edit list once it passed every check
 			prevOK := false
@@ -524,9 +546,45 @@ func main() {
 		}
 		col.mu.Unlock()
 		if i%97 == 0 && r.WantSample() {
-			j := (i * 7) % n
-			r.Sample(map[string]any{"before": before, "after": strs[j], "Strings": editsString(diff.Strings(before, strs[j]))})
+			j := (i * 7) % len(afters)
+			r.Sample(map[string]any{"before": clipStr(before), "after": clipStr(afters[j]), "Strings": clipStr(editsString(diff.Strings(before, afters[j])))})
 		}
+	}
+	mc.ParallelFor(n, func(i int) { row(i, strs[i], strs) })
+
+	// Second sweep: long inputs. The LCS search is bounded (about 100 edits); beyond that the
+	// package stitches partial diagonals together, code that no pair of short strings reaches.
+	// Shapes: P + filler^k + S against every short string C (a large deletion), the reverse (a large
+	// insertion) and long against long with different fillers, for every P, S, C of <= 2 (thorough
+	// 3) symbols over {a, b, c, LF}; k chosen on both sides of the search limit.
+	short := allOver([]string{"a", "b", "c", "\n"}, mc.Pick(r, 2, 3))
+	fillers := []string{"x", "xy", "a", "\n"}
+	ks := []int{60, 130, 260}
+	r.Bound("long_sweep_short_strings", len(short))
+	r.Bound("long_sweep_fillers", fillers)
+	r.Bound("long_sweep_repeat_counts", ks)
+	var longs []string
+	for _, f := range fillers {
+		for _, k := range ks {
+			mid := strings.Repeat(f, k)
+			for _, p := range short {
+				for _, q := range short {
+					longs = append(longs, p+mid+q)
+				}
+			}
+		}
+	}
+	r.Bound("long_sweep_long_strings", len(longs))
+	mc.ParallelFor(len(longs), func(i int) { row(n+i, longs[i], short) })            // large deletions
+	mc.ParallelFor(len(short), func(i int) { row(n+len(longs)+i, short[i], longs) }) // large insertions
+	// long against long: same prefix/suffix family, different filler or count
+	step := mc.Pick(r, 97, 7)
+	mc.ParallelFor(len(longs), func(i int) {
+		var afters []string
+		for j := i % step; j < len(longs); j += step {
+			afters = append(afters, longs[j])
+		}
+		row(n+2*len(longs)+i, longs[i], afters)
 	})
 
 	for k := range col.out {
